@@ -32,9 +32,14 @@ Definition sv_needs_resp_types : list bytes := [hex "676574"; hex "736574"].
 Definition sv_needs_resp_any_iq : bool := false.
 Definition sv_needs_resp_unrecognised : nat := 0.
 (* Session.Serve: `switch err { case nil: ...; case io.EOF: return nil; default: return s.sendError(err) }` *)
-Definition sv_serve_eof_identity : bool := false. (* the peer's close is recognised by err == io.EOF *)
+Definition sv_serve_eof_identity : bool := true. (* the peer's close is recognised by err == io.EOF *)
 Definition sv_serve_switches : nat := 1.
-Definition sv_serve_clauses : nat := 0.
+Definition sv_serve_clauses : nat := 3.
+(* session.go responseChecker: the methods a handler can write through, besides EncodeToken *)
+Definition sv_rc_write_methods : list bytes := [hex "456e636f6465"; hex "456e636f6465456c656d656e74"]. (* [Encode EncodeElement] *)
+Definition sv_rc_funnelled : nat := 2. (* of these, how many hand the checker itself to the encoder *)
+Definition sv_rc_direct_uses : nat := 0. (* mentions of the embedded writer outside EncodeToken *)
+Definition sv_rc_delegations : nat := 1. (* mentions of the embedded writer in EncodeToken *)
 (* internal/stream/reader.go reader.Token: framing-namespace elements on an established WebSocket stream *)
 Definition sv_ws_eof_locals : list bytes := [hex "636c6f7365"]. (* local names that end the input *)
 Definition sv_ws_eof_top_only : bool := true. (* ... only as top-level elements *)
